@@ -69,6 +69,8 @@ class Sym:
                 return base[1][int(name)]
             if base[0] == "variant" and name in base[3]:
                 return base[3][name]
+            if base[0] == "closure" and name in base[2]:
+                return base[2][name]
             return ("field", base, name)
         if isinstance(last, str) and last.startswith("as "):
             v = last[3:]
